@@ -260,8 +260,22 @@ func arrivalBody(kind string, maxEvents int, mode string) func() {
 					send("A")
 				}
 			}()
+		case "deliver-first":
+			// every delivery has returned before t0 is even answered: nothing listened while any
+			// of them was being delivered (seed c11-5: deliveries queued inside the instance)
+			go func() {
+				for i := 0; i < n; i++ {
+					send("A")
+				}
+				r.Answer(p)
+				answered = true
+			}()
 		}
 		verifrt.WaitIdle()
+		if mode == "deliver-first" && returned == n && r.Requests("ta") != 0 {
+			h.Fail("C11/arrival/early-delivery-taken", "%d matching events were delivered, each call returning before the task in front of the catch event was answered; the catch event nevertheless continued (the task behind it was requested %d times)", n, r.Requests("ta"))
+			return
+		}
 		if returned != n || !answered {
 			h.Fail("C11/arrival/consume-returns", "%d of %d ConsumeEvent calls returned, Do returned %v (%s); live: %v", returned, n, answered, mode, verifrt.LiveRepoGoroutines())
 			return
@@ -504,7 +518,7 @@ func init() {
 			}
 		}
 		for _, kind := range []string{"signal", "message"} {
-			for _, mode := range []string{"concurrent", "answer-first"} {
+			for _, mode := range []string{"concurrent", "answer-first", "deliver-first"} {
 				bounds := []int{0, 1}
 				if thorough {
 					bounds = append(bounds, 2)
